@@ -488,6 +488,84 @@ fn handler_level(ctx: &Ctx) {
     let _ = std::fs::remove_dir_all(&base);
 }
 
+/// Handler level with a real time limit: a file is served (and cached), the entry goes stale, the file is rewritten with
+/// different bytes *of the same length*, and is then requested twice: both answers must be the new bytes (nothing older
+/// than the time limit, and the entry that replaces the stale one must hold what was just read).
+pub fn handler_expiry(via_directory: bool, same_length: bool, tag: u64) -> Vec<Fail> {
+    use humphrey_server::server::server::AppState;
+    let tmp = crate::engine::TmpDir::new("c16x");
+    let dir = tmp.0.clone();
+    let path = dir.join("f.txt");
+    let state = Arc::new(AppState::from(quiet_config(1 << 16, 1)));
+    let v1 = format!("version-1-{:06}", tag % 1_000_000).into_bytes();
+    let v2 = if same_length { format!("version-2-{:06}", tag % 1_000_000).into_bytes() } else { format!("version-2-{:06}-longer", tag % 1_000_000).into_bytes() };
+    std::fs::write(&path, &v1).unwrap();
+    let call = |n: usize| -> Result<Vec<u8>, String> {
+        let r = if via_directory {
+            crate::engine::catch(|| humphrey_server::r#static::directory_handler(make_request("/d/f.txt"), state.clone(), dir.to_str().unwrap(), "/d/*", 0))
+        } else {
+            crate::engine::catch(|| humphrey_server::r#static::file_handler(make_request("/f"), state.clone(), path.to_str().unwrap(), 0))
+        };
+        match r {
+            Err(p) => Err(format!("request {} panicked: {}", n, p)),
+            Ok(r) if u16::from(r.status_code) != 200 => Err(format!("request {} answered {}", n, u16::from(r.status_code))),
+            Ok(r) => Ok(r.body),
+        }
+    };
+    let mut fails = Vec::new();
+    let what = if via_directory { "directory route" } else { "file route" };
+    match call(1) {
+        Ok(b) if b == v1 => {}
+        Ok(b) => fails.push(fail!("handler-expiry:first", "{}: first request returned {:?}", what, String::from_utf8_lossy(&b))),
+        Err(e) => fails.push(fail!("handler-expiry:error", "{}: {}", what, e)),
+    }
+    // let the entry go stale (time limit 1 s), then change the file
+    std::thread::sleep(std::time::Duration::from_millis(2100));
+    std::fs::write(&path, &v2).unwrap();
+    for n in 2..=3 {
+        match call(n) {
+            Ok(b) if b == v2 => {}
+            Ok(b) => {
+                fails.push(fail!(
+                    "handler-serves-data-older-than-the-time-limit",
+                    "{} with cache time limit 1 s: the file was rewritten ({} length) 2.1 s after it had been cached, and request {} after the rewrite returned {:?} instead of {:?}",
+                    what,
+                    if same_length { "same" } else { "different" },
+                    n - 1,
+                    String::from_utf8_lossy(&b),
+                    String::from_utf8_lossy(&v2)
+                ));
+                break;
+            }
+            Err(e) => fails.push(fail!("handler-expiry:error", "{}: {}", what, e)),
+        }
+    }
+    fails
+}
+
+fn handler_expiry_all(ctx: &Ctx) {
+    let jobs: Vec<(bool, bool)> = vec![(false, true), (true, true), (false, false), (true, false)];
+    let found: std::sync::Mutex<Vec<(Fail, J)>> = std::sync::Mutex::new(Vec::new());
+    let next = std::sync::atomic::AtomicUsize::new(0);
+    crate::engine::shards(jobs.len(), |_| loop {
+        let i = next.fetch_add(1, std::sync::atomic::Ordering::SeqCst);
+        if i >= jobs.len() {
+            break;
+        }
+        let (d, same) = jobs[i];
+        ctx.case(hash_of(&("handler-expiry", d, same)), true, &["handler:stale-entry-then-rewrite"]);
+        for f in handler_expiry(d, same, pt::mix(ctx.seed, 1695 + i as u64)) {
+            found.lock().unwrap().push((f, json!({"via_directory": d, "same_length": same})));
+        }
+    });
+    ctx.sample("handler:stale-entry-then-rewrite", || json!({"scenario": "serve + cache, wait past the 1 s time limit, rewrite the file with different bytes of the same length, request twice"}));
+    for (f, c) in found.into_inner().unwrap() {
+        if !ctx.tolerate(&f) {
+            ctx.violation(f, "handler-expiry", c);
+        }
+    }
+}
+
 pub fn make_request(uri: &str) -> humphrey::http::Request {
     use crate::common::http::PlanReader;
     let wire = format!("GET {} HTTP/1.1\r\nHost: localhost\r\n\r\n", uri).into_bytes();
@@ -496,12 +574,16 @@ pub fn make_request(uri: &str) -> humphrey::http::Request {
 }
 
 pub fn run(ctx: &Ctx) {
-    ctx.rule("operation sequences over {set(key,host,size), get(key,host)} applied to the real Cache and to a reference map, with a full sweep over all keys ever stored after every step: exhaustive up to length 4 (quick) / 5 (thorough) over 24 operations for three (limit, sizes, time) settings, random up to 120 ops over 32 keys x 3 hosts with sizes 0..limit and limits 0..64 KiB, 2000-op sequences, 1..8 threads through one RwLock<Cache> with lock-order logging, sleep-based expiry, and file/directory handlers over files rewritten between requests. Non-trivial = the sequence contains an eviction (stored bytes exceed the limit) or an overwrite of an existing key; distinct by sequence");
+    ctx.rule("operation sequences over {set(key,host,size), get(key,host)} applied to the real Cache and to a reference map, with a full sweep over all keys ever stored after every step: exhaustive up to length 4 (quick) / 5 (thorough) over 24 operations for three (limit, sizes, time) settings, random up to 120 ops over 32 keys x 3 hosts with sizes 0..limit and limits 0..64 KiB, 2000-op sequences, 1..8 threads through one RwLock<Cache> with lock-order logging, sleep-based expiry (at cache level, and at handler level: serve, wait past a 1 s time limit, rewrite the file with different bytes of the same length, request twice), and file/directory handlers over files rewritten between requests. Non-trivial = the sequence contains an eviction (stored bytes exceed the limit) or an overwrite of an existing key; distinct by sequence");
     ctx.assume("set sizes never exceed the limit (the only caller checks that first); a miss right after a set is inconclusive only when time_limit = 0 and the wall-clock second changed between the two calls");
     exhaustive(ctx);
     random(ctx);
     concurrent(ctx);
-    expiry(ctx);
+    // the two sleep-based sub-checks run side by side
+    std::thread::scope(|sc| {
+        sc.spawn(|| expiry(ctx));
+        sc.spawn(|| handler_expiry_all(ctx));
+    });
     handler_level(ctx);
 }
 
@@ -511,6 +593,7 @@ pub fn replay(_ctx: &Ctx, kind: &str, case: &J) -> Vec<Fail> {
             Ok(c) => check_seq(&c, &mut Stats { evictions: false, overwrites: false }),
             Err(e) => vec![Fail::new("harness", format!("bad replay case: {}", e))],
         },
+        "handler-expiry" => handler_expiry(case["via_directory"].as_bool().unwrap_or(false), case["same_length"].as_bool().unwrap_or(true), 1),
         _ => vec![],
     }
 }
